@@ -73,6 +73,8 @@ structure Env where
   reenter : Nat → Nat → List InnerAct
   /-- an event loop is available when a coroutine sink receives message `i` -/
   loop : Nat → Bool
+  /-- message `i` is logged with `opt(raw=True)`: the handler's format is not applied -/
+  raw : Nat → Bool := fun _ => false
 
 inductive QItem where
   | msg (i : Nat)                 -- a formatted message
@@ -127,6 +129,8 @@ def stageActive (env : Env) (c : Cfg) (i : Nat) : Stage → Bool
   | .dynFormat => c.dynamic
   | .excFormat => env.hasExc i
   | .serialize => c.serialize
+  -- the `is_raw` branch of `emit` emits the message as it is: no `format_map` there (`Gen.rawSkipsFormatMap`)
+  | .formatMap => !(Gen.rawSkipsFormatMap && env.raw i)
   | _ => true
 
 def faultAt (env : Env) (c : Cfg) (i : Nat) (st : Stage) : Option Err :=
@@ -324,6 +328,16 @@ def runTasks (env : Env) (c : Cfg) : List Nat → HState → HState × List Even
       let r := runTasks env c rest s
       (r.1, evs ++ r.2)
 
+/-- what `await logger.complete()` raises on account of the awaited tasks: `AsyncSink._complete_task` is
+    `try: await task / except <Gen.completeTaskSwallows>: pass` – the failure of a task's body is the done-callback's
+    business (`runTasks`), the awaiting caller sees it only if that `except` does not cover it -/
+def tasksRes (env : Env) (c : Cfg) : List Nat → Res
+  | [] => .ok
+  | i :: rest =>
+    match env.fault i c.id .coroBody with
+    | some e => if Gen.completeTaskSwallows e then tasksRes env c rest else .raised e
+    | none => tasksRes env c rest
+
 /-- `handler.complete_queue()` then awaiting `handler.tasks_to_complete()` -/
 def completeH (env : Env) (c : Cfg) : Step := fun s =>
   if c.enqueue then
@@ -331,12 +345,12 @@ def completeH (env : Env) (c : Cfg) : Step := fun s =>
       let w := workerRun env c (s.queue ++ [.confirm]) s
       if w.1.workerAlive then
         let t := runTasks env c w.1.tasks w.1
-        ⟨t.1, w.2 ++ t.2, .ok⟩
+        ⟨t.1, w.2 ++ t.2, tasksRes env c w.1.tasks⟩
       else ⟨w.1, w.2, .blocked⟩            -- the confirmation event is never set
     else ⟨s, [], .blocked⟩
   else
     let t := runTasks env c s.tasks s
-    ⟨t.1, t.2, .ok⟩
+    ⟨t.1, t.2, tasksRes env c s.tasks⟩
 
 /-- `with self._lock: body` – no re-entrancy test: taken by a thread that already holds it, it blocks -/
 def plainLock (body : Step) : Step := fun s =>
